@@ -7,6 +7,7 @@ require (
 	github.com/anishathalye/porcupine v1.3.0
 	github.com/superfly/litefs v0.0.0
 	github.com/superfly/ltx v0.3.14
+	golang.org/x/net v0.17.0
 )
 
 require (
@@ -20,7 +21,6 @@ require (
 	github.com/prometheus/common v0.37.0 // indirect
 	github.com/prometheus/procfs v0.8.0 // indirect
 	golang.org/x/exp v0.0.0-20230515195305-f3d0a9c9a5cc // indirect
-	golang.org/x/net v0.17.0 // indirect
 	golang.org/x/sync v0.4.0 // indirect
 	golang.org/x/sys v0.13.0 // indirect
 	golang.org/x/text v0.13.0 // indirect
